@@ -56,12 +56,15 @@ def make_disk(rng, tmp, tag, layout='mbr-primary'):
     L = max(len(v) for v in vols) // 512 + rng.choice([0, 3])       # equal-sized slots
     lead = 8
     if layout == 'mbr-primary':
-        slots = sorted(rng.sample([1, 2, 3, 4], 4))
+        # one of the four primary slots stays unused (the volume is on the disk but not in the table): a partition's
+        # number is its slot, not its rank among the used slots
+        unused = rng.choice([0, 1, 2, None])
         disk = bytearray(512 * (lead + 4 * L))
         for k, v in enumerate(vols):
             first = lead + k * L
             disk[512 * first:512 * first + len(v)] = v
-            disk[446 + 16 * k:462 + 16 * k] = mbr_entry(rng.choice([0x0c, 0x0e, 0x06]), first, L)
+            if k != unused:
+                disk[446 + 16 * k:462 + 16 * k] = mbr_entry(rng.choice([0x0c, 0x0e, 0x06]), first, L)
         disk[510:512] = b'\x55\xaa'
         numbers = [1, 2, 3, 4]
     elif layout == 'mbr-logical':
@@ -102,7 +105,7 @@ def make_disk(rng, tmp, tag, layout='mbr-primary'):
             return struct.pack('<8sIII4xQQQQ16sQIII', b'EFI PART', 0x10000, 92, crc, 1, total - 1, first0, total - 34,
                                hashlib.md5(tag.encode()).digest(), 2, nent, esize, zlib.crc32(bytes(table)))
         disk[512:512 + 92] = header(zlib.crc32(header(0)))
-    pick = sorted(rng.sample(range(4), 2))
+    pick = sorted(rng.sample([k for k in range(4) if not (layout == 'mbr-primary' and k == unused)], 2))
     path = os.path.join(tmp, f'{tag}.img')
     with open(path, 'wb') as f:
         f.write(disk)
